@@ -191,7 +191,7 @@ class WWWAuthenticate:
 
     @type.setter
     def type(self, value: str) -> None:
-        self._type = value
+        self._type = value.lower()
         self._trigger_on_update()
 
     @property
